@@ -47,6 +47,9 @@ def blank : HObj n d := ⟨fun _ _ => 0, fun _ _ => 0, one, true, false⟩
 def setH (a : HObj n d) (h : HMat d) : HObj n d := { a with h := h }
 def setRotation (a : HObj n d) (b : Bool) : HObj n d := { a with rotation := b }
 def setAllowMirror (a : HObj n d) (b : Bool) : HObj n d := { a with allowMirror := b }
+/-- `Affine._set_h_matrix(self, value, copy, skip_checks)` (the plain setter: validity guards, then the matrix is
+stored) — a trusted word of the vocabulary -/
+def _root_.MenpoModel.C07.plainSetH (a : HObj n d) (v : HMat d) (_copy _skipChecks : Bool) : HObj n d := a.setH v
 def ops : ObjOps (HObj n d) (Mat n d) (Mat n d) where
   source a := a.source
   target a := a.target
